@@ -948,7 +948,7 @@ package wire
 //@   ensures [window] Advanced(reader.Msg, old(reader.Msg)) || arr(reader.Msg) > old(#alloc)
 //@   ensures [new-window] ret1 != reader ==> (fresh(ret1) && fresh(ret1.Buffer) && (ret1.Msg == nil || arr(ret1.Msg) > old(#alloc)))
 //@   ensures [out-silent] OutSame()
-//@   callsite (*wire.Server).readVersion [reads-upgraded] {C11} $reader == reader
+//@   ensures [reads-upgraded] {C11 C03} (version == 80877103 && err == nil && ret1 != reader) ==> (ret1.Buffer.#pos == 8 + len(ret1.Msg) && ret2 == sbe32(ret1.Buffer, 4))
 //@   modifies reader.Buffer.#pos, arrayof(reader.header), reader.Msg, memtail(reader.Msg), #maxalloc, #nalloc, #rawN, #rawLast, #rawConn
 
 //@ func (*Server).Handshake
